@@ -154,6 +154,10 @@ def extract_selected_variable_and_expression(symbolic_cls: Type, domain: Optiona
     if not domain and cache_keys:
         domain = From((v for a, v in yield_class_values_from_cache(Variable._cache_, symbolic_cls, from_index=False,
                                                                    cache_keys=cache_keys)))
+    elif domain and isinstance(domain.domain, SymbolicExpression):
+        # an expression (a variable is iterable, but over bindings) has no values yet: the variable filters them by its
+        # type when it evaluates the expression (Variable._update_domain_).
+        pass
     elif domain and is_iterable(domain.domain):
         # a new From, the given one belongs to the caller and may be handed to several variables.
         domain = From(filter(lambda v: isinstance(v, symbolic_cls), domain.domain))
